@@ -38,7 +38,7 @@ TRUSTED_BASE = [
     "hand-written Gallina models of the Rust code, tied to /repo by the correspondence suites of this run (Rust harness, generators, canonical renderings, tools/check.py string comparison)",
     "guarded hook commit in /repo (cfg rustun_verif): read-only snapshot accessors",
     "tools/gen_constants.py (regular-expression translator of the numeric constants of /repo into coq/Generated/Constants.v; a constant it cannot find becomes an impossible value, so the agreement lemma fails)",
-    "tools/rs2v.py (translator of a small imperative subset of Rust — integer / boolean logic, early returns, if let, match, while let, &mut field updates, debug-build overflow checks as explicit panics — into coq/Generated/Code.v for padding, ignore_attribute, the MessageType / MessageMethod / MessageClass conversions, RtoCalculator and RtoManager; an untranslatable function becomes a unit definition, so its agreement lemma fails)",
+    "tools/rs2v.py (translator of a small imperative subset of Rust — integer / boolean logic, early returns, if let, match, while let, &mut field updates, debug-build overflow checks as explicit panics — byte slices, `?`, copy_from_slice, loops over explicit fuel — into coq/Generated/Code.v for 30 functions: padding, check_buffer_boundaries, ignore_attribute, the MessageType / MessageMethod / MessageClass conversions, the raw.rs header / TLV iterator / get_input_text, the stream reassembler StunPacketDecoder, RtoCalculator, RtoManager and RttCalcuator; an untranslatable function becomes a unit definition, so its agreement lemma fails; its reading of Rust semantics is trusted, what it emits is proved equal to the hand-written models by Proofs/CodeAgree*.v)",
 ]
 
 
@@ -545,7 +545,7 @@ def check(prop, tier, seed):
             if not os.path.exists(gp) or open(gp).read() != open(os.path.join(COQ, 'Generated', fname)).read():
                 differs = True
         if differs and consts:
-            OVER = ['ConstantsCodec', 'ConstantsMethods', 'ConstantsAgent', 'ConstantsAgentNonce', 'ConstantsAgentRtt', 'CodeAgreePad', 'CodeAgreeFilter', 'CodeAgreeCodec', 'CodeAgreeRto', 'CodeAgreeRtt', 'CodeAgreeRaw', 'CodeAgreeReasm']
+            OVER = ['ConstantsCodec', 'ConstantsMethods', 'ConstantsAgent', 'ConstantsAgentNonce', 'ConstantsAgentRtt', 'CodeAgreePad', 'CodeAgreeFilter', 'CodeAgreeCodec', 'CodeAgreeRto', 'CodeAgreeRtt', 'CodeAgreeRaw', 'CodeAgreeReasm', 'CodeAgreeIter']
 
             def is_over(x):
                 return x.startswith('Generated.') or (x.startswith('Proofs.') and x[len('Proofs.'):] in OVER)
